@@ -63,7 +63,8 @@ pub(crate) fn run(seed: u64, n: u64, out: &mut Out) {
         let fin_number = fin * interval;
         // the peer's latest hashes so far
         let lat_cp = if rng.chance(1, 8) { fin_number + interval } else { fin_number };
-        let lat_len = if rng.chance(1, 3) { 0 } else { rng.range(0, proved_at - fin_number) };
+        // (a peer proven below the tip often holds every hash up to its proven header: what it sends next starts right above it)
+        let lat_len = if rng.chance(1, 3) { 0 } else if proved_at < tip && rng.chance(1, 2) { proved_at - fin_number } else { rng.range(0, proved_at - fin_number) };
         let lat: Vec<packed::Byte32> = (1..=lat_len).map(|j| bc.fhashes[(fin_number + j) as usize].clone()).collect();
         net.peers.mock_latest_block_filter_hashes(peer, lat_cp, lat.clone());
         // where filter syncing stands decides the cached range
